@@ -457,6 +457,8 @@ def run(chk):
                 'judged up to the single deinversion of edges, and only under the C06 hypotheses (deinverting model, plain roles, '
                 'every Push names a variable); all other clauses are judged on every wf connected non-empty graph.')
     chk.require_theorems('Properties.C12', THEOREMS)
+    from harness import serialise_theorems
+    chk.require_theorems('Properties.C12b', serialise_theorems.THEOREMS_C12)   # composition with the end-to-end theorems
     chk.assumptions.append('connectivity is proved for the declarative notion connectedP; the boolean procedure connected_b '
                            'is proved sound, not complete')
     chk.assumptions.append('the serialisation clause (encode, then decode, gives the graph back up to the model\'s single '
